@@ -595,6 +595,175 @@ SOFT = [('s-arrayunit', sf_arrayunit), ('s-coefforigin', sf_coefforigin), ('s-of
 OTHER = [('o-propnonsi', ot_propnonsi), ('o-tagunits', ot_tagunits_raw), ('o-dimunit', ot_dimunit_raw), ('o-misc', ot_misc)]
 
 
+# ----------------------------------------------------------------------------------------------
+# directed family: every loop of checks.cpp / validate.cpp / File::validate with the breaching element at
+# the first, a middle and the last position while all other elements are fine
+
+def _dim(kind, n, labelled=True, unit='s'):
+    dm = Dim(kind)
+    if kind == 'set':
+        dm.labels = ['l%d' % i for i in range(n)] if labelled else []
+    elif kind == 'range':
+        dm.ticks = [float(i) for i in range(n)]
+        dm.unit, dm.base = unit, 's'
+    elif kind == 'samp':
+        dm.interval = 0.5
+        dm.unit, dm.base = unit, 's'
+    elif kind == 'frame':
+        dm.rows = n
+    return dm
+
+
+def _arr(name, extent, kinds, labelled=True):
+    a = Arr('b0', name, list(extent))
+    a.dims = [_dim(k, n, labelled) for k, n in zip(kinds, extent)]
+    return a
+
+
+def _set_len(dm, m):
+    if dm.kind == 'set':
+        dm.labels = ['x%d' % i for i in range(m)]
+    elif dm.kind == 'range':
+        dm.ticks = [float(i) for i in range(m)]
+    elif dm.kind == 'frame':
+        dm.rows = m
+
+
+def _one_block(arrays, tags=(), props=None):
+    p = Plan()
+    p.blocks.append(('b0', list(arrays), list(tags), []))
+    if props is not None:
+        p.sections.append(('s0', None, props))
+    return p
+
+
+def _tag(name, multi, refs, units, arrays, rank):
+    t = Tag('b0', name, multi)
+    t.refs = list(refs)
+    t.units = list(units)
+    if multi:
+        pa = Arr('b0', 'pos_' + name, [2, rank])
+        pa.dims = [Dim('set'), Dim('set')]
+        arrays.append(pa)
+        t.pos = pa
+    else:
+        t.pos = [0.0] * rank
+    return t
+
+
+EXT = {2: [3, 2], 3: [3, 2, 4]}
+
+
+def loop_family():
+    cases = []
+
+    def add(plan, tag):
+        cases.append(Case(emit(plan), tag))
+
+    # (1) dimTicksMatchData / dimLabelsMatchData / dimDataFrameTicksMatchData: several dimensions of the same
+    #     kind, the wrong length at every position; the wrong length is the extent of a neighbouring dimension
+    for kind in ('set', 'range', 'frame'):
+        for rank in (2, 3):
+            ext = EXT[rank]
+            for bad in range(rank):
+                for others_labelled in ((True, False) if kind == 'set' else (True,)):
+                    a = _arr('a0', ext, [kind] * rank, others_labelled)
+                    _set_len(a.dims[bad], ext[(bad + 1) % rank])
+                    add(_one_block([a]), 'loop-dimlen-' + kind)
+            # two wrong, one fine
+            a = _arr('a0', ext, [kind] * rank)
+            _set_len(a.dims[0], ext[0] + 1)
+            _set_len(a.dims[rank - 1], ext[rank - 1] + 2)
+            add(_one_block([a]), 'loop-dimlen-' + kind)
+    #     ... and between dimensions of other kinds
+    for kind in ('set', 'range', 'frame'):
+        for bad in range(3):
+            kinds = ['samp', 'set', 'range']
+            kinds[bad] = kind
+            kinds[(bad + 1) % 3] = kind
+            a = _arr('a0', EXT[3], kinds)
+            _set_len(a.dims[bad], EXT[3][bad] + 1)
+            add(_one_block([a]), 'loop-dimlen-mixed')
+    # (2) dimension count: one descriptor more / fewer, every rank
+    for rank in (1, 2, 3):
+        ext = [3, 2, 4][:rank]
+        a = _arr('a0', ext, ['set'] * rank)
+        a.extra_dims = 1
+        add(_one_block([a]), 'loop-dimcount')
+        a = _arr('a0', ext, ['samp'] * rank)
+        a.post.append('h5 deldim %%(a)d %d' % rank)
+        add(_one_block([a]), 'loop-dimcount')
+    # (3) isSorted: the descent at every adjacent pair; the unsorted / non-positive dimension at every position
+    for pair in range(3):
+        a = _arr('a0', [4], ['range'])
+        t = [0.0, 1.0, 2.0, 3.0]
+        t[pair], t[pair + 1] = t[pair + 1], t[pair]
+        a.dims[0].post.append('h5 ticks %%(a)d %%(k)d 4 %s' % ' '.join(d(x) for x in t))
+        add(_one_block([a]), 'loop-sorted')
+    for bad in range(3):
+        a = _arr('a0', EXT[3], ['range'] * 3)
+        n = EXT[3][bad]
+        t = [float(n - i) for i in range(n)]
+        a.dims[bad].post.append('h5 ticks %%(a)d %%(k)d %d %s' % (n, ' '.join(d(x) for x in t)))
+        add(_one_block([a]), 'loop-walk-dims')
+        a = _arr('a0', EXT[3], ['samp'] * 3)
+        a.dims[bad].post.append('h5 interval %%(a)d %%(k)d %s' % d(0.0))
+        add(_one_block([a]), 'loop-walk-dims')
+    # (4) tagUnitsMatchRefsUnits: three references, the reference with the foreign dimension unit first / middle /
+    #     last; in it the foreign unit at the first / last dimension (three units: pinned_family covers every index)
+    for multi in (False, True):
+        for badref in range(3):
+            for baddim in (0, 2):
+                arrays = [_arr('a%d' % i, EXT[3], ['samp'] * 3) for i in range(3)]
+                arrays[badref].dims[baddim].unit, arrays[badref].dims[baddim].base = 'V', 'V'
+                t = _tag('t0', multi, arrays[:3], ['s', 'ms', 's'], arrays, 3)
+                add(_one_block(arrays, [t]), 'loop-tagunits-refs')
+    #     four units on four dimensions... rank 3 is the largest the generator builds: two references, each index
+    for bad in range(3):
+        arrays = [_arr('a%d' % i, EXT[3], ['range'] * 3) for i in range(2)]
+        units = ['s', 's', 's']
+        units[bad] = 'mV'
+        t = _tag('t0', False, arrays[:2], units, arrays, 3)
+        add(_one_block(arrays, [t]), 'loop-tagunits-units')
+    # (5) isValidUnit over the units vector (find_if_not): the invalid unit at every position (raw HDF5)
+    for bad in range(3):
+        arrays = [_arr('a0', EXT[3], ['samp'] * 3)]
+        t = _tag('t0', False, arrays[:1], ['s', 's', 's'], arrays, 3)
+        u = ['s', 's', 's']
+        u[bad] = 'foo'
+        t.h5units = u
+        add(_one_block(arrays, [t]), 'loop-validunits')
+    # (6) the loops of File::validate: the breaching entity first / middle / last among its siblings
+    for bad in range(3):
+        arrays = [_arr('a%d' % i, EXT[2], ['set'] * 2) for i in range(3)]
+        arrays[bad].extra_dims = 1
+        add(_one_block(arrays), 'loop-walk-arrays')
+        arrays = [_arr('a0', EXT[2], ['samp'] * 2)]
+        t = _tag('t0', False, [], [], arrays, 2)
+        t.feats = [(arrays[0], i, ['h5 nodata %(f)d'] if i == bad else []) for i in range(3)]
+        add(_one_block(arrays, [t]), 'loop-walk-features')
+        arrays = [_arr('a0', EXT[2], ['samp'] * 2)]
+        tags = [_tag('m%d' % i, True, [], [], arrays, 2) for i in range(3)]
+        tags[bad].post.append('h5 nopositions %(t)d')
+        add(_one_block(arrays, tags), 'loop-walk-mtags')
+        arrays = [_arr('a0', EXT[2], ['samp'] * 2)]
+        tags = [_tag('t%d' % i, False, arrays[:1], ['s', 's'], arrays, 2) for i in range(3)]
+        tags[bad].units = ['V', 's'] if bad != 1 else ['s', 'V']
+        add(_one_block(arrays, tags), 'loop-walk-tags')
+        props = [('p%d' % i, 2, None if i == bad else 'mV') for i in range(3)]
+        add(_one_block([_arr('a0', [2], ['set'])], props=props), 'loop-walk-props')
+    for badblock in range(2):
+        p = Plan()
+        for bi in range(2):
+            a = _arr('a0', EXT[2], ['set'] * 2)
+            a.block = 'b%d' % bi
+            if bi == badblock:
+                _set_len(a.dims[0], 5)
+            p.blocks.append(('b%d' % bi, [a], [], []))
+        add(p, 'loop-walk-blocks')
+    return cases
+
+
 def pinned_family():
     """the smallest files for the tag-unit rule: a 2-D / 3-D reference whose dimensions all have unit s (or ms),
     tag (or multi-tag) units with one non-convertible entry at every index"""
@@ -651,7 +820,9 @@ class C19(Prop):
                   'propUnit_variant = AsPinned): Properties_C19 then holds the refutation of the full statement for that variant next '
                   'to the partial statement, and the full statement proved for the repaired variant.')
     technique = 'Coq proof over a hand-written validator model + correspondence on generated nix files with breach injection'
-    nontrivial_rule = ('a case is a complete nix file (1-3 blocks, rank 1-3 arrays with set/sampled/range/alias/data-frame dimensions, '
+    nontrivial_rule = ('first a directed family (every loop of checks.cpp, of the rule tables and of File::validate with the '
+                       'breaching dimension / unit / reference / sibling entity at the first, a middle and the last position, all '
+                       'other elements fine), then random files: a case is a complete nix file (1-3 blocks, rank 1-3 arrays with set/sampled/range/alias/data-frame dimensions, '
                        'tags and multi-tags with units/extents/features, nested sources, nested sections with properties) built '
                        'rule-conforming and then damaged by 0-4 breaches drawn from the 9 hard rules, the 4 soft rules and a grey-zone '
                        'stream, through the API where it allows and through raw HDF5 otherwise; distinct = distinct script text; '
@@ -673,6 +844,7 @@ class C19(Prop):
         cases = []
         if scale == 1:
             cases += pinned_family()
+            cases += loop_family()
         k = scale * (1 if tier == 'quick' else 20)
         # conforming files
         for i in range(40 * k):
